@@ -908,6 +908,15 @@ func replyStorm(r *rng, n int, base int) error {
 		if sidx%3 == 1 {
 			addrs = append(addrs, fmt.Sprintf("127.0.0.2:%d", base+sidx%50))
 		}
+		// one storm in twelve starts with a long hold: every slot is taken by a query that hangs for longer than any
+		// waiting limit found in the proxy's source, while a TCP connection and a UDP datagram wait for a slot
+		longHold := sidx%12 == 5
+		hold := time.Duration(0)
+		if longHold {
+			hold = holdLongerThan(time.Second, 12*time.Second, "proxy")
+			timeout = hold
+			k = 2
+		}
 		w, err := newWorldAddrs(addrs, uint(k), timeout)
 		if err != nil {
 			return err
@@ -916,9 +925,50 @@ func replyStorm(r *rng, n int, base int) error {
 		counts := map[string]int{}
 		nev := r.rng(10, 40)
 		var wg sync.WaitGroup
+		if longHold {
+			counts[fmt.Sprintf("long_hold_ms_%d", hold.Milliseconds())] = 1
+			nev = r.rng(4, 10)
+			mkq := func(name string) ([]byte, []byte) {
+				q := msgSpec{id: r.intn(65536), flags: 0x0100, qs: [][]byte{question(encodeName(strings.TrimSuffix(name, ".")), 1, 1)}}.encode()
+				resp := append([]byte{}, q...)
+				resp[2] |= 0x80
+				return q, resp
+			}
+			for j := 0; j < k; j++ {
+				name := fmt.Sprintf("hold%d.storm.", j)
+				q, _ := mkq(name)
+				w.up.mu.Lock()
+				w.up.script[name] = &behaviour{kind: "hang"}
+				w.up.mu.Unlock()
+				wg.Add(1)
+				go func() { defer wg.Done(); udpExchange(w.addr, q, hold+300*time.Millisecond, time.Millisecond) }()
+			}
+			time.Sleep(60 * time.Millisecond)
+			for j := 0; j < 2; j++ {
+				name := fmt.Sprintf("wait%d.storm.", j)
+				q, resp := mkq(name)
+				w.up.mu.Lock()
+				w.up.script[name] = &behaviour{kind: "up", msg: resp}
+				w.up.mu.Unlock()
+				wg.Add(1)
+				go func(tcp bool) {
+					defer wg.Done()
+					if tcp {
+						tcpExchange(w.addr, frame(q), 1, hold+500*time.Millisecond, time.Millisecond)
+					} else {
+						udpExchange(w.addr, q, hold+500*time.Millisecond, time.Millisecond)
+					}
+				}(j == 0)
+			}
+			time.Sleep(hold + 100*time.Millisecond)
+			timeout = 150 * time.Millisecond // the events that follow are short ones
+		}
 		for e := 0; e < nev; e++ {
 			kind := []string{"udp_small", "udp_junk", "udp_ok", "udp_uperr", "udp_timeout", "udp_panic",
 				"tcp_half", "tcp_small", "tcp_ok_then_close", "tcp_close_before_reply", "tcp_panic"}[r.intn(11)]
+			if longHold && (kind == "udp_timeout" || kind == "tcp_close_before_reply") {
+				kind = "udp_ok" // this proxy's request timeout is the long one: no further hangs
+			}
 			counts[kind]++
 			name := fmt.Sprintf("e%d.storm.", e)
 			ms := msgSpec{id: r.intn(65536), flags: 0x0100, qs: [][]byte{question(encodeName(strings.TrimSuffix(name, ".")), 1, 1)}}
